@@ -608,6 +608,15 @@ def gen_case_concat(rng, tier):
     if r < 0.35:
         return dict(heap=heap, doms=[doms[0]], binders=[cb], sel=[conc], cond=None, form='entity',
                     list_items=rng.random() < 0.6)
+    if rng.random() < 0.15 and not flat_inside and doms[0][1]:
+        # the concatenated expression is read off a NESTED QUERY with a disjunction, an(entity(x, or_(p, q))).field, and the
+        # concatenation is selected next to another variable: it is computed once per row of that variable, every time in full
+        one = lambda: ['cmp', rng.choice(OPS), ['map', ['f', F[rng.choice('ab')]], ['var', 1]], ['lit', rng.choice(INT_ALPHA)]]
+        filt = ['or', one(), one(), rng.choice(['fn', 'op'])] if rng.random() < 0.8 else ['and', one(), ['or', one(), one(), 'fn'], 'fn']
+        cond = ['cmp', rng.choice(OPS), ['map', ['f', F[rng.choice('ab')]], ['var', 2]], ['lit', rng.randint(0, 2)]] if rng.random() < 0.7 else None
+        sel = [['var', 2], conc] if rng.random() < 0.5 else [conc, ['var', 2]]
+        return dict(heap=heap, doms=doms, binders=[cb, ['var', 2]], sel=sel, cond=cond, form='set_of', dom_filters=[[1, filt]],
+                    list_items=rng.random() < 0.6)
     if r < 0.45 and not flat_inside:
         # the concatenation selected NEXT TO another variable (set_of), that variable filtered by a condition of its own
         cond = ['cmp', rng.choice(OPS), ['map', ['f', F[rng.choice('ab')]], ['var', 2]], ['lit', rng.randint(0, 2)]]
